@@ -61,7 +61,7 @@ def StructureFactor(hkl, ucell, sgname, atoms, disper = None):
         for j in range(mysg.nsymop):
             # atomic displacement factor
             if atoms[i].adp_type == 'Uani':
-                betaijrot = n.dot(mysg.rot[j], n.dot(betaij, mysg.rot[j]))
+                betaijrot = n.dot(mysg.rot[j], n.dot(betaij, n.transpose(mysg.rot[j])))
                 expij = n.exp(-n.dot(hkl, n.dot(betaijrot, hkl)))
                 
             # exponent for phase factor
